@@ -9,6 +9,7 @@ import (
 // wait-for shape of a deadlocked child?).
 
 type gor struct {
+	ID     string   // goroutine number
 	State  string   // "chan receive", "chan send", "sync.Mutex.Lock", "running", ...
 	Frames []string // function names, innermost first
 	Ctx    string   // receiver pointer of the (*MPCalContext).Run / .Stop frame, if any ("" if unknown)
@@ -25,7 +26,11 @@ func parseDump(dump string) []gor {
 			if k := strings.Index(st, ","); k >= 0 { // "chan receive, 2 minutes"
 				st = st[:k]
 			}
-			out = append(out, gor{State: strings.TrimSpace(st)})
+			id := ""
+			if f := strings.Fields(line); len(f) > 1 {
+				id = f[1]
+			}
+			out = append(out, gor{ID: id, State: strings.TrimSpace(st)})
 			cur = &out[len(out)-1]
 			continue
 		}
@@ -80,7 +85,10 @@ func (g gor) innermostCtxFrame() string {
 
 func parked(state string) bool {
 	switch state {
-	case "chan receive", "chan send", "sync.Mutex.Lock", "semacquire", "select", "sync.WaitGroup.Wait", "sync.RWMutex.Lock", "sync.RWMutex.RLock":
+	// plain "semacquire" is deliberately absent: it is the state of a goroutine waiting for a runtime-internal
+	// semaphore (e.g. a runtime.Stack caller waiting for the world to be stopped by another caller)
+	case "chan receive", "chan send", "sync.Mutex.Lock", "select", "sync.WaitGroup.Wait", "sync.RWMutex.Lock", "sync.RWMutex.RLock", "sync.Cond.Wait",
+		"chan receive (nil chan)", "chan send (nil chan)", "select (no cases)":
 		return true
 	}
 	return false
